@@ -1287,7 +1287,10 @@ func (g *genState) admissible(q *request) *request {
 	case "FLATTEN", "SEGMENT", "BALANCE":
 		bad = g.related[q.id]
 	case "ADDBATCH", "DELBATCH":
-		bad = g.flatRel[q.id] // FlattenBatches shares the batch HEADERS: renumbering by Create depends on positions
+		// SegmentFile hands credits-only / debits-only batches (IAT: header and control pointers) to the half
+		// as the same object: renumbering by a later Create depends on positions (FlattenBatches no longer
+		// shares headers, its relatives stay excluded as before)
+		bad = g.flatRel[q.id] || g.related[q.id]
 	case "CONTENTS", "BUILD":
 		bad = g.flatSrc[q.id]
 	}
